@@ -76,7 +76,14 @@ def r201(repo, ctx, index):
 
 def _dict_keys_written(func):
     keys = set()
+    dicts = {'data'} | {r.value.id for r in ast.walk(func) if isinstance(r, ast.Return) and isinstance(r.value, ast.Name)}
     for n in ast.walk(func):
+        if isinstance(n, ast.Assign) and isinstance(n.targets[0], ast.Subscript) and isinstance(n.targets[0].value, ast.Name) and n.targets[0].value.id in dicts - {'data'}:
+            s = n.targets[0].slice
+            if isinstance(s, ast.Constant):
+                keys.add(s.value)
+            elif isinstance(s, ast.BinOp) and isinstance(s.left, ast.Constant):
+                keys.add(s.left.value + '*')
         if isinstance(n, ast.Dict):
             for k in n.keys:
                 if isinstance(k, ast.Constant):
@@ -106,12 +113,40 @@ def _dict_keys_read(func, name='data'):
     return keys
 
 
-def r202(repo, ctx):
+def _super_chain(index, key, meth):
+    """the definitions of `meth` an instance of exactly class `key` runs: the nearest one in the MRO and, as long as each
+    calls super().meth(..), the next ones - each specialised to `key` (class-level tables resolved for that class, loops over
+    them written out)"""
+    out = []
+    for k in index.mro(key):
+        m = index.methods(k).get(meth)
+        if m is None:
+            continue
+        out.append((k, index.specialised(key, meth, func=m)))
+        if not any(isinstance(c.func, ast.Attribute) and c.func.attr == meth and isinstance(c.func.value, ast.Call) and U.call_name(c.func.value) == 'super' for c in U.calls(m)):
+            break
+    return out
+
+
+def r202(repo, ctx, index=None):
     pairs = [(EULER, 'PrecipitateModel.toDict', 'PrecipitateModel.fromDict', 5), (D, 'DiffusionModel.toDict', 'DiffusionModel.fromDict', 4),
-             (SU, 'GeneralSurrogate._collectSurrogateData', 'GeneralSurrogate._processSurrogateData', 2),
-             (SU, 'BinarySurrogate._collectSurrogateData', 'BinarySurrogate._processSurrogateData', 1),
-             (SU, 'MulticomponentSurrogate._collectSurrogateData', 'MulticomponentSurrogate._processSurrogateData', 1),
              (ST, 'StrengthModel.save', 'StrengthModel.load', 3)]
+    # surrogates: what an instance of each class writes and reads, whichever class of the hierarchy holds the code
+    for cls, floor in (('GeneralSurrogate', 2), ('BinarySurrogate', 3), ('MulticomponentSurrogate', 3)):
+        key = (SU, cls)
+        wchain, rchain = _super_chain(index, key, '_collectSurrogateData'), _super_chain(index, key, '_processSurrogateData')
+        if not wchain or not rchain:
+            raise AnchorMissing(f'{cls}: _collectSurrogateData / _processSurrogateData not found in {SU}')
+        kw, kr = set(), set()
+        for _, fw in wchain:
+            kw |= _dict_keys_written(fw)
+        for _, fr in rchain:
+            pn = U.params(fr)
+            kr |= _dict_keys_read(fr, name=pn[1] if len(pn) > 1 else 'data')
+        ok = kw == kr and len(kw) >= floor
+        ctx.check(ok, 'R20.2', SU, f'{rchain[0][0][1]}._processSurrogateData', rchain[0][1], f'a {cls} writes and reads the same {len(kw)} keys {sorted(kw)}',
+                  f'save/load key tables of {cls} differ: written only {sorted(kw - kr)}, read only {sorted(kr - kw)}' + ('' if len(kw) >= floor else f' (only {len(kw)} keys, {floor} expected)'),
+                  construct=f'{cls}._collectSurrogateData vs {cls}._processSurrogateData')
     for path, w, r, floor in pairs:
         fw, fr = repo.func(path, w), repo.func(path, r)
         kw, kr = _dict_keys_written(fw), _dict_keys_read(fr)
@@ -321,7 +356,7 @@ def check(repo, ctx, index, purity):
     ctx.explanation = EXPLANATION
     ctx.assumptions += ['exact reproduction of array contents and interpolation at training points are numeric and not decided']
     r201(repo, ctx, index)
-    r202(repo, ctx)
+    r202(repo, ctx, index)
     r203(repo, ctx, index)
     r204(repo, ctx, index)
     r206(repo, ctx)
